@@ -297,7 +297,7 @@ static void enumK(int level, const std::function<bool(const CaseText &)> &sink) 
 }
 static rc::Gen<K> genK() {
   return rc::gen::mapcat(rc::gen::elementOf(g_variants), [](const std::string &v) {
-    return rc::gen::map(rc::gen::tuple(rc::gen::elementOf(kernelsOf(v)), rc::gen::weightedOneOf<int>({{3, irange(0, 300)}, {2, irange(300, 5000)}, {1, irange(5000, 60000)}}), irange(0, 1), irange(0, 63), irange(0, 63), irange(0, 2), irange(1, 1 << 30)),
+    return rc::gen::map(rc::gen::tuple(rc::gen::elementOf(kernelsOf(v)), rc::gen::weightedOneOf<int>({{60, irange(0, 300)}, {40, irange(300, 5000)}, {20, irange(5000, 60000)}, {1, rc::gen::element(262143, 262144, 262145, 262151, 300001, 524289)}})   /* rarely past 1 MiB of output: large-buffer paths (streaming stores, blocking) */, irange(0, 1), irange(0, 63), irange(0, 63), irange(0, 2), irange(1, 1 << 30)),
                         [v](const std::tuple<std::string, int, int, int, int, int, int> &t) { K k; k.variant = v; k.mask = g_mask; k.kernel = std::get<0>(t); k.count = std::get<1>(t); k.place = std::get<2>(t); k.mis = std::get<3>(t); k.dmis = std::get<4>(t); k.pattern = std::get<5>(t); k.seed = (uint32_t)std::get<6>(t);
                           if (k.kernel.rfind("unpack", 0) == 0 && k.kernel != "unpack_bools") k.count = 0; return k; });
   });
@@ -310,7 +310,7 @@ int main(int argc, char **argv) {
     CaseText t = CaseText::parse(ss.str());
     if (t.has("mask")) { const char *cur = getenv("CARQUET_VERIF_CPU_CAP"); if (!cur || t.get("mask") != cur) { setenv("CARQUET_VERIF_CPU_CAP", t.get("mask").c_str(), 1); execv("/proc/self/exe", argv); perror("execv"); return 3; } }
   }
-  for (auto &r : R) r = new Region((size_t)2 << 20);
+  for (auto &r : R) r = new Region((size_t)6 << 20);
   if (getenv("CARQUET_VERIF_CPU_CAP")) {
     // dispatcher run: this process sees only the capability mask given in the environment
     g_variants = {"dispatch"};
